@@ -55,15 +55,16 @@ UNITS = ["cm", "mm", "in", "pt", "pc", "px", "%"]
 
 
 def _dur_model(s: str):
-    """Independent decoder of a canonical xsd:duration without Y/M(month) part
-    and with whole seconds -> timedelta, else None."""
-    m = re.match(r"(-?)P(?:(\d+)D)?(?:T(?:(\d+)H)?(?:(\d+)M)?(?:(\d+)S)?)?\Z", s, re.ASCII)
+    """Independent decoder of an xsd:duration without Y/M(month) part (seconds with up to 6 fraction digits) -> timedelta,
+    else None."""
+    m = re.match(r"(-?)P(?:(\d+)D)?(?:T(?:(\d+)H)?(?:(\d+)M)?(?:(\d+)(?:\.(\d{1,6}))?S)?)?\Z", s, re.ASCII)
     if not m or not RE_DURATION.match(s):
         return None
     sign = -1 if m.group(1) else 1
-    d, h, mi, se = (int(g) if g else 0 for g in m.groups()[1:])
+    d, h, mi, se = (int(g) if g else 0 for g in m.groups()[1:5])
+    us = int((m.group(6) or "0").ljust(6, "0"))  # a fraction of up to 6 digits is exactly representable
     try:
-        return sign * timedelta(days=d, hours=h, minutes=mi, seconds=se)
+        return sign * timedelta(days=d, hours=h, minutes=mi, seconds=se, microseconds=us)
     except OverflowError:
         return None
 
@@ -419,7 +420,9 @@ def run_shard(ctx):
             allm.extend(("Duration", m, "explicit") for m in
                         ["P", "PT", "-P", "-PT", "P1H", "PT1D", "PT-1H", "P-1D", "PT1H ", " PT1H", "PT1.5S", "PT1.S",
                          "P1M", "P1Y", "P1Y2M3D", "PT1H1H", "PT1S1H", "P1DT", "PT\uff11H", "pt1h", "PT1H2", "1H", "T1H",
-                         "P1D2H", "PTH", "PT1HM", "+PT1H", "--PT1H", "PT1,5S"])
+                         "P1D2H", "PTH", "PT1HM", "+PT1H", "--PT1H", "PT1,5S",
+                         "-PT0.5S", "PT0.5S", "-PT00H00M00.250S", "-P0DT0H0M0.000001S", "-PT1.5S", "-P1DT0.25S", "PT0.000001S", "-PT0.000001S",
+                         "PT25H", "PT90M", "PT3600S", "-PT36H", "P0D", "PT0S", "-PT0S", "PT0.0S", "PT59.999999S", "-P2DT23H59M59.5S"])
             for o in ("true", "false"):
                 allm.extend(("Boolean", m, o) for m in mutants(o) + ["True", "FALSE", "1", "0", "yes"])
             for o in ("#000000", "#FFFFFF", "#12ab9F"):
